@@ -185,12 +185,13 @@ CHECKS["C20"] = {
             "{allocate with every distinguishable Intn answer sequence, close live socket i}: open sockets = model set after every step, no port live twice, clean failure only when every answered port was busy; "
             "(v) histories over ONE generator instance: every sequence (depth 5 quick / 7 thorough) of {allocate any port, allocate requested P1, allocate requested P2, close i-th live socket} x Static/None/Range(udp) x udp4/tcp4/udp6/tcp6 x "
             "wildcard/specific listen address: fresh socket on a port no live allocation of the history holds, requested = bound = advertised, relay IP advertised, held requested port fails cleanly (udp), Close frees. "
-            "A class is (net, range-size class, port position) / (generator, network, mode, outcome) / (MaxRetries, live-before, outcome, Intn calls).",
+            "A class is (net, range-size class, port position) / (generator, network, mode, outcome) / (MaxRetries, live-before, outcome, Intn calls). (vi) manager: Manager.CreateAllocation x generators x udp4/tcp4/udp6/tcp6 x listening addresses x requested port {none, six values}: the allocation's RelayAddr names the one socket that was bound, on the requested port when one was requested; a second UDP allocation requesting a held port fails cleanly; DeleteAllocation frees the port.",
     "parts": [A("range", "./checks/c20", "TestC20Range", budget={"quick": 60, "thorough": 1500}),
               A("requested", "./checks/c20", "TestC20Requested", budget={"quick": 60, "thorough": 120}),
               A("filldrain", "./checks/c20", "TestC20FillDrain", budget={"quick": 60, "thorough": 900}),
               A("filldrain-top", "./checks/c20", "TestC20FillDrainTop", budget={"quick": 60, "thorough": 900}),
-              A("histories", "./checks/c20", "TestC20Histories", budget={"quick": 60, "thorough": 900})],
+              A("histories", "./checks/c20", "TestC20Histories", budget={"quick": 60, "thorough": 900}),
+              A("manager", "./checks/c20", "TestC20Manager", budget={"quick": 30, "thorough": 60})],
 }
 
 CHECKS["C03"] = {
